@@ -4,7 +4,7 @@ from props.common import *
 ROUT = {1: ('p%sgssv.c', 'p?gssv'), 2: ('p%sgssvx.c', 'p?gssvx'), 3: ('%sgstrs.c', '?gstrs'), 4: ('%sgsrfs.c', '?gsrfs'),
         5: ('%sgscon.c', '?gscon'), 6: ('%sgsequ.c', '?gsequ'), 7: ('%ssp_blas2.c', 'sp_?trsv'), 8: ('%ssp_blas2.c', 'sp_?gemv')}
 PLN = {'s': 1, 'd': 2, 'c': 3, 'z': 4}
-MALLOC = ['-UUSER_MALLOC', '-UUSER_FREE', '-DUSER_MALLOC(s)=vh_malloc(s)', '-DUSER_FREE(p)=vh_free(p)']
+MALLOC = ['-UUSER_MALLOC', '-UUSER_FREE', '-DUSER_MALLOC(s)=vh_malloc(s)', '-DUSER_FREE(p)=vh_free(p)', '-include', '/verif/harness/vh_alloc.h']
 
 def arg_query(pid, r, p):
     src = ROUT[r][0] % p
